@@ -175,6 +175,10 @@ func init() {
 			swarmFaults(t, &c)
 			c.CrashRate = pick(t, "cfg-crash", 0, 0, 6, 15)
 			c.ZeroDelta = pick(t, "cfg-zerodelta", 0, 50)
+			// one run in twelve: a native application may stamp a write
+			// below the version it overwrites locally (clock skew between
+			// hosts); see the known finding nonmonotone-local-write
+			c.Work.NonMonotone = c.Native && t.Choose("cfg-nonmonotone", 12) == 11
 			return c
 		},
 		Mons: func(f *Fleet) []Monitor { return []Monitor{&MonC01{}} },
@@ -197,6 +201,11 @@ func swarmAppsafe(t *Tape) FleetCfg {
 	c.PreferPoints = []string{"loadonce:after-txn", "sendonce:after-txn", "sync:before-change-check",
 		"sync:before-send", "sync:after-load", "sync:before-load", "sendonce:in-view", "sync:loop-top"}
 	c.PreferBias = pick(t, "cfg-prefer", 700, 300, 950)
+	if t.Choose("cfg-focus", 2) == 1 {
+		// directed: every application commit is aimed at one window
+		c.PreferPoints = []string{c.PreferPoints[t.Choose("cfg-focus-point", len(c.PreferPoints))]}
+		c.PreferBias = 1000
+	}
 	c.CrashRate = pick(t, "cfg-crash2", 0, 8, 20)
 	c.Work.MaxOps = 1 + t.Choose("cfg-maxops2", 2)
 	return c
